@@ -476,3 +476,172 @@ def dominated_by_any_edge(f, edges):
     for (a, b) in edges:
         out |= blocks_dominated_by_edge(f, a, b)
     return out
+
+
+# ---------------------------------------------------------------------------------------------------------------
+# TABLE — decision tables of enum-dispatching functions
+# ---------------------------------------------------------------------------------------------------------------
+def postdominators(f):
+    """pdom[b] = blocks that post-dominate b on normal flow (virtual exit joins all return/diverging blocks)."""
+    n = len(f.blocks)
+    succs = f.succs()
+    reach = f.reachable(0)
+    EXIT = n
+    sx = {b: (list(succs[b]) if succs[b] else [EXIT]) for b in reach}
+    full = set(reach) | {EXIT}
+    pdom = {b: set(full) for b in reach}
+    pdom[EXIT] = {EXIT}
+    changed = True
+    while changed:
+        changed = False
+        for b in reach:
+            ss = [s for s in sx[b] if s in pdom]
+            if not ss:
+                continue
+            new = set.intersection(*(pdom[s] for s in ss)) | {b}
+            if new != pdom[b]:
+                pdom[b] = new
+                changed = True
+    return pdom
+
+
+def arm_regions(f, sw):
+    """For a discriminant switch: variant -> set of blocks executed only inside that arm (up to the join)."""
+    pdom = postdominators(f)
+    join = pdom.get(sw["block"], set()) - {sw["block"]}
+    out = {}
+    targets = dict(sw["explicit"])
+    if sw["otherwise_live"]:
+        targets["_"] = sw["otherwise"]
+    for v, tgt in targets.items():
+        out[v] = f.reachable(tgt, avoid=join)
+    return out
+
+
+def region_outputs(f, blocks):
+    """What a region produces: string/char/int/bool constants, enum aggregates, callee names."""
+    consts, aggs, callees = [], [], []
+    for b in sorted(blocks):
+        for s in f.stmts(b):
+            if s["s"] != "assign":
+                continue
+            rv = s["rv"]
+            for o in iter_operands_rv(rv):
+                if "c" in o and "fn" not in o:
+                    consts.append((o["c"], o["ty"]))
+            if rv["r"] == "agg" and rv.get("ak") == "adt":
+                aggs.append((rv["adt"], rv["variant"]))
+        t = f.term(b)
+        if t["t"] in ("call", "tailcall"):
+            callees.append(callee_name(t) or callee_generic(t) or "?")
+            for o in t["args"]:
+                if "c" in o and "fn" not in o:
+                    consts.append((o["c"], o["ty"]))
+    return consts, aggs, callees
+
+
+def enum_table(f, enum_adt):
+    """variant -> (consts, aggregates, callees) for the main match of f over enum_adt."""
+    sw = primary_dispatch(f, enum_adt)
+    if sw is None:
+        return None, None
+    regs = arm_regions(f, sw)
+    tab = {}
+    for v, blocks in regs.items():
+        tab[v] = region_outputs(f, blocks)
+    return sw, tab
+
+
+def str_consts(consts):
+    out = []
+    for c, ty in consts:
+        if ty.startswith("&") and "str" in ty and c.startswith('"'):
+            v = const_str({"c": c, "ty": "&str"})
+            out.append(v)
+    return out
+
+
+def resolve_enum_value(f, o, depth=6):
+    """Resolve an operand to a (possibly nested) enum value: ('Adt','Variant',[children]) or None."""
+    if depth <= 0 or o is None:
+        return None
+    pl = op_place(o)
+    if pl is None:
+        return ("const", o.get("c"), [])
+    if any(e[0] != "deref" for e in pl["p"]):
+        return None
+    d = f.single_def(pl["l"])
+    if d is None or d[2] != "assign":
+        return None
+    rv = d[3]
+    if rv["r"] == "agg" and rv.get("ak") == "adt":
+        kids = [resolve_enum_value(f, x, depth - 1) for x in rv["ops"]]
+        return (rv["adt"], rv["variant"], kids)
+    if rv["r"] in ("use", "cast"):
+        return resolve_enum_value(f, rv["o"], depth - 1)
+    if rv["r"] in ("ref", "cfd"):
+        return resolve_enum_value(f, {"cp": rv["p"]}, depth - 1)
+    return None
+
+
+def flat_enum(v):
+    """('TokenKind','Operator',[('OperatorId','EqEq',[])]) -> 'Operator(EqEq)'"""
+    if v is None:
+        return None
+    if v[0] == "const":
+        return str(v[1])
+    if v[2]:
+        return "%s(%s)" % (v[1], ",".join(str(flat_enum(k)) for k in v[2]))
+    return v[1]
+
+
+def guarded_results(f, guard_pred, result_adt):
+    """Pairs (guard value, result variant): for every call satisfying guard_pred whose boolean result is
+    branched on, the values of `result_adt` built on the true side before the next guard call."""
+    pairs = []
+    guard_blocks = set()
+    for bi, t in f.calls():
+        n = callee_name(t) or callee_generic(t) or ""
+        if guard_pred(n):
+            guard_blocks.add(bi)
+    for bi in sorted(guard_blocks):
+        t = f.term(bi)
+        vals = [flat_enum(resolve_enum_value(f, o)) for o in t["args"][1:]]
+        vals = [v for v in vals if v]
+        if t["d"]["p"] or t["to"] is None:
+            continue
+        dl = t["d"]["l"]
+        # find the switch on the bool result
+        true_targets = []
+        for b2, blk in enumerate(f.blocks):
+            tt = blk["term"]
+            if tt["t"] == "switch":
+                p = op_place(tt["on"])
+                if p is not None and not p["p"] and p["l"] in derived_locals(f, dl):
+                    # bool switch: targets [[0, false_bb]], otherwise = true
+                    for v, tgt in tt["targets"]:
+                        if v != "0":
+                            true_targets.append(tgt)
+                    if all(v == "0" for v, _ in tt["targets"]):
+                        true_targets.append(tt["otherwise"])
+        for tgt in true_targets:
+            seen = set()
+            dq = deque([tgt])
+            found = []
+            while dq:
+                b = dq.popleft()
+                if b in seen:
+                    continue
+                seen.add(b)
+                for s in f.stmts(b):
+                    if s["s"] == "assign" and s["rv"]["r"] == "agg" and s["rv"].get("adt") == result_adt:
+                        found.append(s["rv"]["variant"])
+                if found:
+                    continue
+                if b in guard_blocks and b != bi:
+                    continue
+                for s2 in f.succs()[b]:
+                    dq.append(s2)
+            for r in found:
+                pairs.append((tuple(vals), r, t.get("ln")))
+    return pairs
